@@ -89,6 +89,26 @@ def strSplitAux (sep : Str) : Nat → Str → Str → List Str
 
 def strSplit (s sep : Str) : List Str := strSplitAux sep 0 s []
 
+/-- `unicode.IsSpace` on the Latin-1 range, which is what `bytes.Fields` goes by for single-byte characters -/
+def isSpace (c : Char) : Bool :=
+  c == ' ' || c == '\t' || c == '\n' || c == '\x0b' || c == '\x0c' || c == '\r' || c == '\u0085' || c == '\u00a0'
+
+/-- `bytes.Fields`: the maximal runs of non-space characters -/
+def bytesFieldsAux : Str → Str → List Str
+  | [], cur => if cur.isEmpty then [] else [cur.reverse]
+  | c :: cs, cur =>
+    if isSpace c then (if cur.isEmpty then bytesFieldsAux cs [] else cur.reverse :: bytesFieldsAux cs [])
+    else bytesFieldsAux cs (c :: cur)
+
+def bytesFields (s : Str) : List Str := bytesFieldsAux s []
+
+/-- `bytes.Lines`: the data cut after every line feed (the terminator stays with its line) -/
+def bytesLinesAux : Str → Str → List Str
+  | [], cur => if cur.isEmpty then [] else [cur.reverse]
+  | c :: cs, cur => if c == '\n' then (c :: cur).reverse :: bytesLinesAux cs [] else bytesLinesAux cs (c :: cur)
+
+def bytesLines (s : Str) : List Str := bytesLinesAux s []
+
 /-- `strings.Trim(s, cutset)` -/
 def strTrim (s cutset : Str) : Str :=
   ((s.dropWhile (cutset.contains ·)).reverse.dropWhile (cutset.contains ·)).reverse
